@@ -19,7 +19,22 @@ def main(argv):
     from .monitors.install import import_all
     import_all()
     observing = observe.install(pid)          # before any monitor wraps a function
-    mod.run(rec)
+    try:
+        mod.run(rec)
+    except Exception as e:
+        # An exception escaping from library code on an input the driver considers valid is a violation (the property
+        # promises a value); an exception raised by the harness itself is a harness problem and stays a crash (inconclusive).
+        import os
+        import traceback
+        tb = traceback.extract_tb(e.__traceback__)
+        repo = os.path.abspath(os.environ.get("PV_REPO", "/repo")) + os.sep
+        inner = tb[-1].filename if tb else ""
+        if os.path.abspath(inner).startswith(repo):
+            where = "".join(traceback.format_list(tb[-4:]))
+            rec.check("B-driver.exception", False, "library-exception", "the workload was aborted by %r raised inside the library:\n%s" % (e, where[-900:]),
+                      facts={"kind": "library-exception", "exception": type(e).__name__, "function": tb[-1].name})
+        else:
+            raise
     if tier == "thorough" and getattr(mod, "ATTACH", True):
         # W2 scenarios and W3 (the repository's own tests) under this property's monitor families
         from .scope import FAMILIES
